@@ -303,6 +303,34 @@ def eval_op(line, extra=None):
         except Exception as e:  # noqa
             return errstr(e)
         return msgstr(m)
+    if op == "brepr":
+        return repr(unhx("" if tok[1] == "-" else tok[1]))
+    if op == "beval":
+        b = unhx("" if tok[1] == "-" else tok[1])
+        try:
+            r = eval(repr(b))  # noqa: the expression is the repr of a bytes object
+        except Hang:
+            raise
+        except Exception as e:  # noqa
+            return "none:" + type(e).__name__
+        return "ok " + hx(r) if isinstance(r, bytes) else "none"
+    if op == "mrepr":
+        lab = extra.get("label", int(tok[1]))
+        try:
+            m = RTCMMessage(payload=unhx(tok[2]), labelmsm=lab)
+        except Hang:
+            raise
+        except Exception as e:  # noqa
+            return errstr(e)
+        rp = repr(m)
+        try:
+            m2 = eval(rp, {"RTCMMessage": RTCMMessage})  # noqa
+            back = hx(m2.payload)
+        except Hang:
+            raise
+        except Exception as e:  # noqa
+            back = "none:" + type(e).__name__
+        return rp + " || " + back
     if op == "parse":
         lab = extra.get("label", int(tok[2]))
         try:
